@@ -148,18 +148,44 @@ class Chain:
                     and isinstance(e.body, ast.Subscript) and isinstance(e.body.value, ast.Name)
                     and e.body.value.id == t.comparators[0].id
                     and ast.dump(e.body.slice) == ast.dump(t.left) and ast.dump(e.orelse) == ast.dump(t.left)):
-                d = sc.dicts[t.comparators[0].id]
-                kv = []
-                for k, v in zip(d.keys, d.values):
-                    if not (isinstance(k, ast.Constant) and isinstance(v, ast.Constant)):
-                        raise Unsupported("non-literal dict display")
-                    kv.append("(%s, %s)" % (E.pval(E.reify(k.value)), E.pval(E.reify(v.value))))
-                return "(GLitGetOr %s %s)" % (E.lst(kv), self.val(t.left, sc))
+                return "(GLitGetOr %s %s)" % (self.dict_display(sc.dicts[t.comparators[0].id]), self.val(t.left, sc))
+        if (isinstance(e, ast.Call) and isinstance(e.func, ast.Attribute) and e.func.attr == "get"
+                and isinstance(e.func.value, ast.Name) and e.func.value.id in sc.dicts and len(e.args) == 2
+                and not e.keywords and ast.dump(e.args[0]) == ast.dump(e.args[1])):
+            # D.get(x, x) hashes x and falls back to x: the same as  D[x] if x in D else x
+            return "(GLitGetOr %s %s)" % (self.dict_display(sc.dicts[e.func.value.id]), self.val(e.args[0], sc))
         if isinstance(e, ast.Call) and isinstance(e.func, ast.Name) and e.func.id == "reduce":
             if len(e.args) == 3 and isinstance(e.args[0], ast.Lambda) and isinstance(e.args[2], ast.List) \
                     and not e.args[2].elts and _Py2vTr._is_accumulate_unique(e.args[0]):
                 return "(GUnique %s)" % self.val(e.args[1], sc)
         raise Unsupported("value expression %s" % ast.dump(e)[:80])
+
+    @staticmethod
+    def dict_display(d):
+        kv = []
+        for k, v in zip(d.keys, d.values):
+            if not (isinstance(k, ast.Constant) and isinstance(v, ast.Constant)):
+                raise Unsupported("non-literal dict display")
+            kv.append("(%s, %s)" % (E.pval(E.reify(k.value)), E.pval(E.reify(v.value))))
+        return E.lst(kv)
+
+    @staticmethod
+    def guarded_getor(v):
+        """D[x] if (C1 and ... and x in D) else x   ->   (And(C1..), the plain `D[x] if x in D else x`): when the
+        other conjuncts hold the two expressions are the same, when one fails both are x."""
+        t = v.test
+        if (isinstance(v, ast.IfExp) and isinstance(t, ast.BoolOp) and isinstance(t.op, ast.And) and len(t.values) >= 2
+                and isinstance(t.values[-1], ast.Compare) and len(t.values[-1].ops) == 1
+                and isinstance(t.values[-1].ops[0], ast.In)):
+            rest = t.values[:-1]
+            guard = rest[0] if len(rest) == 1 else ast.BoolOp(op=ast.And(), values=rest)
+            return guard, ast.IfExp(test=t.values[-1], body=v.body, orelse=v.orelse)
+        return None
+
+    @staticmethod
+    def is_condition(v):
+        return isinstance(v, (ast.Compare, ast.BoolOp)) or (isinstance(v, ast.UnaryOp) and isinstance(v.op, ast.Not)) \
+            or (isinstance(v, ast.Call) and isinstance(v.func, ast.Name) and v.func.id == "isinstance")
 
     # ------------------------------------------------------------- conditions
     def classes(self, e, sc):
@@ -323,8 +349,14 @@ class Chain:
                         finally:
                             sc.names = saved
                     return self.call_value(v, sc, nvars, after)
-                if isinstance(v, ast.IfExp) and not self._is_getor(v, sc):
+                g = self.guarded_getor(v) if isinstance(v, ast.IfExp) else None
+                if g is not None and self._is_getor(g[1], sc) and ast.dump(g[1].orelse) == ast.dump(v.orelse):
+                    c, a, b = self.cond(g[0], sc), self.val(g[1], sc), self.val(v.orelse, sc)
+                elif isinstance(v, ast.IfExp) and not self._is_getor(v, sc):
                     c, a, b = self.cond(v.test, sc), self.val(v.body, sc), self.val(v.orelse, sc)
+                elif self.is_condition(v):
+                    # a local that holds the truth value of a guard
+                    c, a, b = self.cond(v, sc), "(GConst (PBool true))", "(GConst (PBool false))"
                 else:
                     c, a, b = "(CConst true)", self.val(v, sc), "(GConst PNone)"
                 saved = dict(sc.names)
